@@ -427,7 +427,11 @@ def generate(rng, tier):
     for i in range(n_inst):
         c = rng.choice(bd) if i % 2 else rand_date(rng)
         u = rng.randrange(5)
-        cases.append({"op": "ioffset", "c": c, "n": rng.choice([1, -1, 2, 11, 12, 13, -12, 52, 53, 365, -366, rng.randrange(-2000, 2000)]), "u": u})
+        n = rng.choice([1, -1, 2, 11, 12, 13, -12, 52, 53, 365, -366, rng.randrange(-2000, 2000)])
+        if u == 4:
+            # stay inside Python's date range (ASSUMPTIONS): the shifted year is kept >= 1
+            n = max(n, 1 - c[0])
+        cases.append({"op": "ioffset", "c": c, "n": n, "u": u})
         cases.append({"op": "firstof", "c": c, "u": u})
         cases.append({"op": "lastof", "c": c, "u": u})
         cases.append({"op": "isocal", "c": c})
